@@ -501,6 +501,8 @@ inductive OpenMode where
   | io                       -- an `fs.FS` (`fs.ValidPath` enforced) rooted at `rootSegs`
   | os (cwd : List Str)      -- echo's default file system before `MustSubFS`: `os.Open(name)`,
                              -- any name, relative to the working directory
+  | dirfs                    -- echo's default file system AFTER `MustSubFS` (`os.DirFS(root)`): an `fs.FS`
+                             -- rooted at `rootSegs` that opens nothing unless the root is a directory NOW
 deriving Repr, Inhabited
 
 /-- the OS walks a name element by element: `x/..` needs `x` to be an existing directory (unlike
@@ -538,6 +540,10 @@ def openBy (m : OpenMode) (t : Tree) (rootSegs : List Str) (name : Str) : Look :
   match m with
   | .io => ioOpen t rootSegs name
   | .os cwd => osOpen t cwd name
+  | .dirfs =>
+    match look t rootSegs with
+    | .dir _ => ioOpen t rootSegs name
+    | _ => .notExist
 
 /-- serve an opened regular file: `fi, _ := f.Stat()` with a failing `Stat` leaves `fi` nil and
     `fi.IsDir()` panics; a file that is no `io.ReadSeeker` is refused -/
@@ -578,6 +584,39 @@ def staticDirF (f : Faults) (t : Tree) (rootSegs : List Str) (star urlPath : Str
     | .file _ =>
       if f.statFile then ([name], .notFound404)
       else let r := fsFileF f .io t rootSegs name; (name :: r.1, r.2)
+
+/-- `StaticDirectoryHandler(fsys, true)` (`disablePathUnescaping`: for an application whose router already
+    unescapes path parameters, mounted by hand with `e.GET(prefix+"*", …)`): the path parameter is used as
+    it is — no `url.PathUnescape`, so a literal `%` stays a `%` — everything else as `staticDirF` -/
+def staticDirRawF (f : Faults) (t : Tree) (rootSegs : List Str) (p urlPath : Str) :
+    List Str × Outcome :=
+  let name := clean (trimPrefixC '/' p)
+  match ioOpen t rootSegs name with
+  | .notExist => ([name], .notFound404)
+  | .invalid => ([name], .notFound404)
+  | .dir _ =>
+    if f.statDir then ([name], .notFound404)
+    else if urlPath ≠ [] ∧ urlPath.getLast? ≠ some '/' then ([name], .redirect)
+    else let r := fsFileF f .io t rootSegs name; (name :: r.1, r.2)
+  | .file _ =>
+    if f.statFile then ([name], .notFound404)
+    else let r := fsFileF f .io t rootSegs name; (name :: r.1, r.2)
+
+/-- `StaticDirectoryHandler` over `os.DirFS(root)` — what `subFS` makes of echo's default file system
+    (`Echo.Static`, `Group.Static`, `MustSubFS(e.Filesystem, root)`).  `os.DirFS` is a string: it is
+    attached whether or not `root` exists when the route is registered, and every `Open` / `Stat`
+    goes to the OS with `root + "/" + name`.  So nothing is found unless the root IS a directory when
+    the request is served (`ENOENT` for a missing root, `ENOTDIR` for a root that is a regular file —
+    also for the name `.`), and everything below it is found as soon as it is one.  An undecodable
+    path parameter is refused before the file system is asked. -/
+def staticDirD (f : Faults) (t : Tree) (rootSegs : List Str) (star urlPath : Str) :
+    List Str × Outcome :=
+  match look t rootSegs with
+  | .dir _ => staticDirF f t rootSegs star urlPath
+  | _ =>
+    match unescape star with
+    | none => ([], .error500)
+    | some p => ([clean (trimPrefixC '/' p)], .notFound404)
 
 /-- `fs.Sub(parent, filepath.Clean(root))` (behind `MustSubFS` for a non-default file system):
     the elements of the sub-root below the parent's root; `none` = `MustSubFS` panics -/
@@ -627,6 +666,25 @@ def openTimeRoot (cwd : Times (List Str)) (root : Str) : Option (List Str) :=
     `Context.File` read `Echo.Filesystem` when the request is served -/
 def staticRouteFS {α : Type} (fs : Times α) : α := fs.atRegister
 def fileRouteFS {α : Type} (fs : Times α) : α := fs.atRequest
+
+/-- a part of the directory tree that is not always there: a directory (with its content) an
+    application creates or removes while it runs — an uploads or build-output directory, a typo that is
+    repaired later.  `present` says at which of the four moments it exists. -/
+structure Late where
+  present : Times Bool
+  entries : Tree
+deriving Repr
+
+/-- the directory tree at the four moments -/
+def treeAt (base : Tree) (l : Late) : Times Tree :=
+  let w (b : Bool) : Tree := if b then base ++ l.entries else base
+  ⟨w l.present.atNew, w l.present.atRegister, w l.present.atFirstRequest, w l.present.atRequest⟩
+
+/-- Every static handler — the middleware (`http.Dir`, any `http.FileSystem`), the Static / StaticFS
+    routes (`os.DirFS`, `fs.Sub`), the File helpers — asks the file system when the request is served
+    and keeps nothing from earlier moments: neither whether the root existed when the middleware was
+    constructed / the route was registered, nor what an earlier request found. -/
+def servedTree (tt : Times Tree) : Tree := tt.atRequest
 
 /-- `quoteEscaper.Replace(name)`: backslash and double quote get a backslash in front -/
 def quoteEscape : Str → Str
@@ -703,6 +761,7 @@ inductive Op where
   | dirF (rec : Bool) (t : Tree) (root : RootSpec) (f : Faults) (star urlPath : Str)
   | fileF (rec : Bool) (t : Tree) (rootSegs : List Str) (f : Faults) (m : OpenMode) (name : Str)
       (disp : Option (Str × Str))
+  | dirRaw (rec : Bool) (t : Tree) (rootSegs : List Str) (f : Faults) (star urlPath : Str)
 
 def pOp : P Op := do
   let k ← nat
@@ -760,39 +819,77 @@ def pOp : P Op := do
     pure (.dirF rec_ t spec f st up)
   | 6 =>
     let f ← pFaults
-    let osCwd ← opt (list str)
+    let mk ← nat
+    let m ← (match mk with
+      | 0 => pure OpenMode.io
+      | 1 => do let c ← list str; pure (OpenMode.os c)
+      | _ => pure OpenMode.dirfs)
     let n ← str
     let disp ← opt (do let a ← str; let b ← str; pure (a, b))
-    pure (.fileF rec_ t rs f (match osCwd with | some c => .os c | none => .io) n disp)
+    pure (.fileF rec_ t rs f m n disp)
+  | 7 =>
+    let f ← pFaults
+    let st ← str
+    let up ← str
+    pure (.dirRaw rec_ t rs f st up)
   | _ => failure
 
-/-- lines: `kind rec tree rootSegs …` → `[n name*] outcome` -/
-def runLine (line : String) : String :=
-  match parseLine pOp line with
-  | none => "bad-op"
-  | some (.mw r cfg t rs cp st up nx) => encResult r (mw cfg t rs cp st up nx)
-  | some (.dir r t rs st up) => encResult r (staticDir t rs st up)
-  | some (.file r t rs n) => encResult r (fsFile t rs n)
-  | some (.mwRaw r t given f skip raw cwd cp st up nx) =>
+def Op.mapTree (g : Tree → Tree) : Op → Op
+  | .mw r cfg t rs cp st up nx => .mw r cfg (g t) rs cp st up nx
+  | .dir r t rs st up => .dir r (g t) rs st up
+  | .file r t rs n => .file r (g t) rs n
+  | .mwRaw r t given f skip raw cwd cp st up nx => .mwRaw r (g t) given f skip raw cwd cp st up nx
+  | .dirF r t spec f st up => .dirF r (g t) spec f st up
+  | .fileF r t rs f m n d => .fileF r (g t) rs f m n d
+  | .dirRaw r t rs f st up => .dirRaw r (g t) rs f st up
+
+/-- optional tail of a line: `b b b b n (path node)*` — a part of the tree and the moments it exists at -/
+def pLate : P (Option Late) := fun s =>
+  match s with
+  | [] => some (none, [])
+  | _ => (do
+      let a ← bool; let b ← bool; let c ← bool; let d ← bool
+      let es ← pTree
+      pure (some (⟨⟨a, b, c, d⟩, es⟩ : Late))) s
+
+def pLine : P (Op × Option Late) := do
+  let op ← pOp
+  let l ← pLate
+  pure (op, l)
+
+def runOp : Op → String
+  | .mw r cfg t rs cp st up nx => encResult r (mw cfg t rs cp st up nx)
+  | .dir r t rs st up => encResult r (staticDir t rs st up)
+  | .file r t rs n => encResult r (fsFile t rs n)
+  | .mwRaw r t given f skip raw cwd cp st up nx =>
     match mwRaw f skip raw t cwd given cp st up nx with
     | some res => encResult r res
     | none => "root-outside-work-directory"
-  | some (.dirF r t (.given rs) f st up) => encResult r (staticDirF f t rs st up)
-  | some (.dirF r t (.sub root) f st up) =>
+  | .dirF r t (.given rs) f st up => encResult r (staticDirF f t rs st up)
+  | .dirF r t (.sub root) f st up =>
     match subRootSegs root with
     | some rs => encResult r (staticDirF f t rs st up)
     | none => "config-panic"
-  | some (.dirF r t (.derived cwd roots) f st up) =>
+  | .dirF r t (.derived cwd roots) f st up =>
     match deriveRoots cwd roots with
-    | some rs => encResult r (staticDirF f t rs st up)
+    | some rs => encResult r (staticDirD f t rs st up)
     | none => "root-outside-work-directory"
-  | some (.dirF r t (.derivedT cwd roots) f st up) =>
+  | .dirF r t (.derivedT cwd roots) f st up =>
     match staticRouteRoot cwd roots with
-    | some rs => encResult r (staticDirF f t rs st up)
+    | some rs => encResult r (staticDirD f t rs st up)
     | none => "root-outside-work-directory"
-  | some (.fileF r t rs f m n none) => encResult r (fsFileF f m t rs n)
-  | some (.fileF r t rs f m n (some (typ, dn))) =>
+  | .fileF r t rs f m n none => encResult r (fsFileF f m t rs n)
+  | .fileF r t rs f m n (some (typ, dn)) =>
     let d := dispFile f m t rs n typ dn
     render [encStr d.1] ++ " " ++ encResult r d.2
+  | .dirRaw r t rs f st up => encResult r (staticDirRawF f t rs st up)
+
+/-- lines: `kind rec tree rootSegs … [late]` → `[n name*] outcome`; with a `late` tail the handlers see
+    the tree of the moment the request is served -/
+def runLine (line : String) : String :=
+  match parseLine pLine line with
+  | none => "bad-op"
+  | some (op, none) => runOp op
+  | some (op, some l) => runOp (op.mapTree fun t => servedTree (treeAt t l))
 
 end C16
